@@ -83,7 +83,17 @@ func (g *c08Gen) polyQP(lq, lp int) ringqp.Poly {
 }
 
 func (g *c08Gen) scale() rlwe.Scale {
-	switch g.ch.Draw("scale-kind", 6) {
+	switch g.ch.Draw("scale-kind", 7) {
+	case 6:
+		// very large or very small real scales (decimal exponent of three digits): what several
+		// multiplications without rescaling leave
+		f := new(big.Float).SetPrec(128).SetInt64(int64(1 + g.rng.Next()%1000000))
+		e := 333 + g.ch.Draw("scale-huge-exp", 700)
+		if g.ch.Bool("scale-tiny") {
+			e = -e
+		}
+		f.SetMantExp(f, e)
+		return rlwe.NewScale(f)
 	case 4:
 		// a plaintext modulus beyond the 53 bits of a float64 mantissa (T may be as large as Q[0])
 		bits := 54 + g.ch.Draw("scale-mod-bits", 11)
@@ -178,6 +188,13 @@ func (g *c08Gen) evk() *rlwe.EvaluationKey {
 		g.rng.Fill(seed[:])
 		k.Seed = &seed
 		g.ctx.Count("probe.compressed-key-with-seed", 1)
+		if g.ch.Chance("evk-expanded", 1, 3) {
+			// a compressed key after Expand: both components present (the seed stays in the object)
+			if err := k.Expand(g.params, nil); err != nil {
+				g.ctx.Harness("Expand: %v", err)
+			}
+			g.ctx.Count("probe.expanded-compressed-key", 1)
+		}
 	}
 	return k
 }
